@@ -375,7 +375,7 @@ class WcMatchCompile(Contract):
 
 
 class RegexpFilter(Contract):
-    module, qual, props = '_wcmatch', 'WcRegexp.filter', ('C01', 'C19', 'C08')
+    module, qual, props = '_wcmatch', 'WcRegexp.filter', ('C01', 'C19', 'C08', 'C06', 'C04')
     assumptions = ('the list comprehension is modelled as an abstract loop: each element is kept iff _Match(...).match(...) is true for it',)
 
     def inputs(self):
@@ -396,7 +396,7 @@ class RegexpFilter(Contract):
             cond = ast.unparse(g.ifs[0]) if len(g.ifs) == 1 else ''
             want = "_Match(os.fspath(filename), self._include, self._exclude, self._real, self._path, self._follow).match(root_dir=rdir, dir_fd=dir_fd)"
             ok = (ast.unparse(lc.elt) == 'filename' and ast.unparse(g.target) == 'filename' and ast.unparse(g.iter) == 'filenames' and cond.replace('\n', '').replace(' ', '') == want.replace(' ', ''))
-        return [('WcRegexp.filter.keeps_exactly_the_names_for_which__Match(name,include,exclude,real,path,follow).match(root_dir,dir_fd)_in_order', ('C01', 'C19', 'C08'), z3.BoolVal(ok))]
+        return [('WcRegexp.filter.keeps_exactly_the_names_for_which__Match(name,include,exclude,real,path,follow).match(root_dir,dir_fd)_in_order', ('C01', 'C19', 'C08', 'C06', 'C04'), z3.BoolVal(ok))]
 
     module = '_wcmatch'
     qual = 'WcRegexp.filter'
